@@ -5,7 +5,7 @@ cd /repo || exit 2
 if ! git apply --check "$patch" 2>/dev/null; then echo "PATCH-DOES-NOT-APPLY $patch"; exit 3; fi
 git apply "$patch"
 for id in "$@"; do
-  (cd /verif && VERIF_NO_SHRINK=${VERIF_NO_SHRINK:-1} timeout 900 ./check "$id" 2>&1 | grep -E "^VIOLATION|clause=|^C[0-9]+ tier|HARNESS" | cut -c1-220 | head -8)
+  (cd /verif && VERIF_NO_EVIDENCE=1 VERIF_NO_SHRINK=${VERIF_NO_SHRINK:-1} timeout 900 ./check "$id" 2>&1 | grep -E "^VIOLATION|clause=|^C[0-9]+ tier|HARNESS" | cut -c1-220 | head -8)
 done
 git -C /repo checkout -- . 
 git -C /repo status --short | grep -v '^??' | head -3
